@@ -290,45 +290,39 @@ Qed.
 
 (* ---- num: dyadic or non-dyadic rational *)
 Lemma atom_num_neg x : atom_of_num (num_neg x) = atom_of_num x.
-Proof.
-  destruct x as [f|n d]; cbn; [apply atom_fl_neg|].
-  destruct (Z.eqb_spec n 0), (Z.eqb_spec (- n) 0); try reflexivity; exfalso; lia.
-Qed.
+Proof. destruct x as [f|n d]; cbn; [apply atom_fl_neg|reflexivity]. Qed.
 
 Lemma atom_num_abs x : atom_of_num (num_abs x) = atom_of_num x.
-Proof.
-  destruct x as [f|n d]; cbn; [apply atom_fl_abs|].
-  destruct (Z.eqb_spec n 0), (Z.eqb_spec (Z.abs n) 0); try reflexivity; exfalso; lia.
-Qed.
+Proof. destruct x as [f|n d]; cbn; [apply atom_fl_abs|reflexivity]. Qed.
 
 Lemma atom_num_copysign x y : atom_of_num (num_copysign x y) = atom_of_num x.
-Proof.
-  destruct x as [f|n d]; cbn; [apply atom_fl_with_sign|].
-  destruct (num_sign y); destruct (Z.eqb_spec n 0);
-    match goal with |- context [?a =? 0] => destruct (Z.eqb_spec a 0) end; try reflexivity; exfalso; lia.
-Qed.
+Proof. destruct x as [f|n d]; cbn; [apply atom_fl_with_sign|reflexivity]. Qed.
 
-(* the class of num_of_frac n d is decided by n alone: finite, zero iff n = 0 *)
+(* the class of num_of_frac n d is decided by n alone: finite, zero iff n = 0
+   (n = 0 gives the dyadic 0/1, never an NQ) *)
 Lemma atom_num_of_frac n d : d <> 0 ->
   atom_of_num (num_of_frac n d) = if n =? 0 then AZero else AFin.
 Proof.
   intros Hd. unfold num_of_frac.
   set (n1 := if d <? 0 then - n else n). set (d1 := if d <? 0 then - d else d).
   assert (Hn1 : n1 = 0 <-> n = 0) by (unfold n1; destruct (d <? 0); lia).
-  assert (Hd1 : d1 <> 0) by (unfold d1; destruct (d <? 0); lia).
+  assert (Hd1 : 0 < d1) by (unfold d1; destruct (Z.ltb_spec d 0); lia).
   replace (if d <? 0 then (- n, - d) else (n, d)) with (n1, d1) by (unfold n1, d1; destruct (d <? 0); reflexivity).
   cbn beta iota.
   set (g := Z.gcd n1 d1).
-  assert (Hg : g <> 0) by (unfold g; intro E; apply Z.gcd_eq_0_r in E; tauto).
+  assert (Hg : g <> 0) by (unfold g; intro E; apply Z.gcd_eq_0_r in E; lia).
   destruct (Z.eqb_spec g 0) as [|_]; [tauto|].
   assert (Hq : n1 / g = 0 <-> n1 = 0).
   { destruct (Z.gcd_divide_l n1 d1) as [k Hk]. fold g in Hk. split; intros E.
     - rewrite Hk in E. rewrite Z.div_mul in E by auto. subst k. lia.
     - rewrite E. apply Z.div_0_l. auto. }
+  assert (Eg : n1 = 0 -> d1 / g = 1).
+  { intros E. unfold g. rewrite E, Z.gcd_0_l, Z.abs_eq by lia. apply Z.div_same. lia. }
   set (q := n1 / g) in *. clearbody q. clearbody g. clearbody n1 d1.
-  destruct (is_pow2 (d1 / g)); cbn [atom_of_num atom_of_fl]; unfold is_zero; cbn [rc].
+  destruct (is_pow2 (d1 / g)) eqn:Ep; cbn [atom_of_num atom_of_fl]; unfold is_zero; cbn [rc].
   - destruct (Z.eqb_spec (Z.abs q) 0), (Z.eqb_spec n 0); try reflexivity; exfalso; lia.
-  - destruct (Z.eqb_spec q 0), (Z.eqb_spec n 0); try reflexivity; exfalso; lia.
+  - destruct (Z.eqb_spec n 0) as [e|]; [|reflexivity]. exfalso.
+    rewrite Eg in Ep by tauto. vm_compute in Ep. discriminate.
 Qed.
 
 Lemma atom_num_of_frac_fin n d : d <> 0 ->
@@ -418,7 +412,7 @@ Proof.
 Qed.
 
 Lemma atom_NQ_ok n d : num_ok (NQ n d) -> atom_of_num (NQ n d) = AFin.
-Proof. rewrite num_ok_NQ. intros [H _]. cbn. destruct (Z.eqb_spec n 0); tauto. Qed.
+Proof. reflexivity. Qed.
 
 (* the rational arm of RealEngine.mul: its infinity case assumes the other
    operand is a non-zero rational, which holds as one operand is an NQ *)
@@ -447,9 +441,9 @@ Proof.
   intros Hx Hy.
   destruct x as [a|n d], y as [b|m e].
   - cbn [num_mul atom_of_num]. apply atom_fl_mul.
-  - apply (atom_num_mul_gen (NF a) (NQ m e)); auto. right. apply atom_NQ_ok; auto.
-  - apply (atom_num_mul_gen (NQ n d) (NF b)); auto. left. apply atom_NQ_ok; auto.
-  - apply (atom_num_mul_gen (NQ n d) (NQ m e)); auto. left. apply atom_NQ_ok; auto.
+  - apply (atom_num_mul_gen (NF a) (NQ m e)); auto.
+  - apply (atom_num_mul_gen (NQ n d) (NF b)); auto.
+  - apply (atom_num_mul_gen (NQ n d) (NQ m e)); auto.
 Qed.
 
 Theorem atom_num_div x y : num_ok x -> num_ok y ->
